@@ -64,10 +64,9 @@ def decode_writes(log_slice):
             continue
         cancel, fr, _ = frames[0]
         if fr.kind in ("ACK", "NAK"):
-            if fr.nrdy or fr.res:
-                out.append(("tx_flags", fr.kind, fr.nrdy, fr.res))
-            else:
-                out.append(("tx", fr.kind, fr.ack, cancel))
+            # (kind, ackNum) is what the properties speak about; the CANCEL prefix and the
+            # nRdy/reserved bits are reported but not part of any comparison
+            out.append(("tx", fr.kind, fr.ack, cancel, fr.nrdy, fr.res))
         else:
             out.append(("tx_other", fr.kind, cancel))
     return out
